@@ -414,6 +414,7 @@ VmTrap vm_core_execute(VmState *vm) {
                     else
                         ev = val_int(ea.as.i64 + eb.as.i64);
                     vm_array_push(result, ev);
+                    vm_release(&vm->heap, ev);  /* the array holds it now (a fresh concatenation was counted twice) */
                 }
                 vm_release(&vm->heap, a);
                 vm_release(&vm->heap, b);
@@ -451,6 +452,7 @@ VmTrap vm_core_execute(VmState *vm) {
                     } else
                         ev = val_int(ea.as.i64 + scalar.as.i64);
                     vm_array_push(result, ev);
+                    vm_release(&vm->heap, ev);  /* the array holds it now (a fresh concatenation was counted twice) */
                 }
                 vm_release(&vm->heap, a);
                 vm_release(&vm->heap, b);
